@@ -88,7 +88,7 @@ def check(ctx: Ctx) -> None:
             rep.ob("R15.3", "waiters are woken only when the new limit actually leaves room (a lowered or unchanged limit admits nobody)", guarded, node=wk,
                    detail="" if guarded else "the wake-up is unconditional: a task waiting for room is admitted even when the limit was lowered below the number of running tasks")
     A.r_validate_first(ctx, "R15.4", ("pool_size.setter",), floor=1)
-    A.r_raise_inventory(ctx, "R15.4i")
+    A.r_raise_inventory(ctx, "R15.4i", entries={"pool_size.setter"}, guards={"size"})
     # constructor goes through the setter
     for f in ctx.pool_funcs("__init__"):
         if f.cls is not ctx.base:
